@@ -129,6 +129,12 @@ inductive Stmt where
   | scope (body : Stmt)              -- inlined callee whose error result makes the caller exit with an error
   deriving Repr
 
+/-- A block of statements (what the translator prints for a Python suite). -/
+def Stmt.block : List Stmt → Stmt
+  | [] => .skip
+  | [s] => s
+  | s :: ss => .seq s (Stmt.block ss)
+
 /-- Compiled form: a finite decision tree. -/
 inductive Prog where
   | ret (r : Ret)
